@@ -2,6 +2,8 @@ import PlushModel
 import PlushProofs.Lib.PlainRender
 import PlushProofs.Lib.StringLit
 import PlushProofs.Lib.OutTagRender
+import PlushProofs.Lib.CodeTag
+import PlushProofs.Lib.TextTagText
 /-!
   C02 — output = literal text verbatim + values of `<%= %>` tags, in source order.
   Evaluator half: theorems about `compileStmts` / `evalStmtBody` (models of compiler.compile and
@@ -167,5 +169,53 @@ theorem C02_output_tag_tokens (c : Bytes) (hno : ∀ x ∈ c, x ≠ 0 ∧ x ≠ 
 
 /-- non-vacuity: the template for the content `a"<b` is `<%="a\"<b"%>` -/
 example : LX.outTagSrc [97, 34, 60, 98] = [60, 37, 61, 34, 97, 92, 34, 60, 98, 34, 37, 62] := by decide
+
+/-- **END TO END, a code tag is silent**: the same string literal in a CODE tag — `<%"…"%>` — renders to NOTHING, for
+    every content `c`, on any data, and leaves the evaluator state as it was: the value is computed and dropped. Together
+    with `C02_output_tag_with_string_end_to_end` this is the difference between `<%= %>` and `<% %>`, proved through the
+    lexer, the parser and the evaluator. -/
+theorem C02_code_tag_with_string_renders_nothing (c : Bytes) (hno : ∀ x ∈ c, x ≠ 0 ∧ x ≠ 92)
+    (data : List (Bytes × Val)) (heap : Array HeapObj) (feeder : List (Bytes × Bytes)) :
+    (renderTop (LX.codeTagSrc c) data heap feeder).1 = .ok [] := renderTop_codeTag c hno data heap feeder
+
+/-- … and has no side effect -/
+theorem C02_code_tag_no_side_effect (c : Bytes) (hno : ∀ x ∈ c, x ≠ 0 ∧ x ≠ 92) (fuel ctx : Nat) (s : ES) :
+    renderIn (fuel + 3) (LX.codeTagSrc c) ctx s = (.ok [], s) := render_codeTag c hno fuel ctx s
+
+/-- **END TO END, text – tag – text, in source order.** For EVERY non-empty literal text `pre` and `post` (no NUL, no
+    `<%`; `pre` not ending in a backslash, which would escape the tag) and EVERY string content `c` (no NUL, no backslash),
+    on any data, heap and partial feeder, `plush.Render` of `pre ++ <%="c"%> ++ post` returns exactly
+    `pre ++ htmlEscape c ++ post`: the literal text outside the tag byte for byte, the value of the tag between them, in
+    source order, and nothing else. Lexer (HTML `pre`, E_START, STRING `c`, E_END, HTML `post`, EOF — the text scanner
+    stops ON the opener and switches modes, the code scanner hands back after `%>`), parser (three statements) and
+    evaluator (`compile` appends literal, value, literal) are composed; nothing here is sampled. -/
+theorem C02_text_tag_text_in_source_order (pre c post : Bytes) (hp : LX.PlainL pre) (hpne : pre ≠ [])
+    (hlast : pre.getD (pre.length - 1) 0 ≠ 92) (hq : LX.PlainL post) (hqne : post ≠ [])
+    (hno : ∀ x ∈ c, x ≠ 0 ∧ x ≠ 92) (data : List (Bytes × Val)) (heap : Array HeapObj) (feeder : List (Bytes × Bytes)) :
+    (renderTop (LX.ttSrc pre c post) data heap feeder).1 = .ok (pre ++ htmlEscape c ++ post) :=
+  renderTop_tt pre c post hp hpne hlast hq hqne hno data heap feeder
+
+/-- … and has no side effect on the evaluator state -/
+theorem C02_text_tag_text_no_side_effect (pre c post : Bytes) (hp : LX.PlainL pre) (hpne : pre ≠ [])
+    (hlast : pre.getD (pre.length - 1) 0 ≠ 92) (hq : LX.PlainL post) (hqne : post ≠ [])
+    (hno : ∀ x ∈ c, x ≠ 0 ∧ x ≠ 92) (fuel ctx : Nat) (s : ES) :
+    renderIn (fuel + 5) (LX.ttSrc pre c post) ctx s = (.ok (pre ++ htmlEscape c ++ post), s) :=
+  render_tt pre c post hp hpne hlast hq hqne hno fuel ctx s
+
+/-- the parser's view: three statements in source order, no syntax error -/
+theorem C02_text_tag_text_parse (pre c post : Bytes) (hp : LX.PlainL pre) (hpne : pre ≠ [])
+    (hlast : pre.getD (pre.length - 1) 0 ≠ 92) (hq : LX.PlainL post) (hqne : post ≠ [])
+    (hno : ∀ x ∈ c, x ≠ 0 ∧ x ≠ 92) :
+    ∃ h0 t1 t2 h4 : Token,
+      parseBytes (LX.ttSrc pre c post) = .ok ({ stmts := [.es h0 (some (.html h0 pre)), .ret true t1 (some (.str t2 c)),
+        .es h4 (some (.html h4 post))] }, #[]) := P.parse_tt pre c post hp hpne hlast hq hqne hno
+
+/-- non-vacuity: `pre = "a<"` (a lone `<` right in front of the tag), `post = ">b"` satisfy the hypotheses -/
+example : LX.PlainL [97, 60] ∧ LX.PlainL [62, 98] ∧ ([97, 60] : Bytes).getD 1 0 ≠ 92 := by
+  refine ⟨⟨?_, ?_⟩, ⟨?_, ?_⟩, by decide⟩
+  · intro i hi; have : i < 2 := hi; rcases i with _|_|i <;> first | decide | omega
+  · intro i; rcases i with _|_|i <;> first | decide | (intro h; have h1 := h.1; simp [List.getD_eq_getElem?_getD] at h1)
+  · intro i hi; have : i < 2 := hi; rcases i with _|_|i <;> first | decide | omega
+  · intro i; rcases i with _|_|i <;> first | decide | (intro h; have h1 := h.1; simp [List.getD_eq_getElem?_getD] at h1)
 
 end Plush
